@@ -550,6 +550,14 @@ def run_unit(unit):
     return res
 
 
+def _sample_hex(U, value):
+    """Encoding of a sample value for the evidence file; a refusal here must not turn a verdict into a harness error."""
+    try:
+        return U.dumps(value).hex()
+    except Exception as e:
+        return 'raised:' + type(e).__name__
+
+
 def _run_unit(unit):
     acc = Acc()
     kind = unit['kind']
@@ -621,9 +629,10 @@ def _run_unit(unit):
                 run_value(acc, [x, x], 'quick', rng, False, nalt=1)
         x0 = next((int(x) for x in unit['ints'] if -2 ** 63 <= int(x) < 2 ** 64), None)
         if x0 is not None:
-            acc.samples.append({'kind': 'ints', 'value': str(x0), 'real_encoding_hex': U.dumps(x0).hex(),
+            real = _sample_hex(U, x0)   # evidence only: the verdict on x0 was given by run_value above
+            acc.samples.append({'kind': 'ints', 'value': str(x0), 'real_encoding_hex': real,
                                 'reference_encodings_decoded': {o: e.hex() for o, e in all_choices(x0)},
-                                'stream_cut_after_bytes': list(range(len(U.dumps(x0)))),
+                                'stream_cut_after_bytes': list(range(len(real) // 2)) if not real.startswith('raised') else [],
                                 'expected_at_every_cut': 'InsufficientDataException'})
     elif kind == 'exttypes':
         # every application type code with every header form (fixext 1/2/4/8/16, ext8) and an empty payload
@@ -645,7 +654,7 @@ def _run_unit(unit):
             run_value(acc, {'f': h}, 'quick', rng, True)
             run_value(acc, {'m': [[{'f': h}, {'f': h}]]}, 'quick', rng, False, nalt=1)
         acc.probes['double_next_to_a_single'] = acc.probes.get('double_next_to_a_single', 0) + len(unit['floats'])
-        acc.samples.append({'kind': 'floats', 'value_hex': unit['floats'][0], 'real_encoding_hex': U.dumps(values.build(unit['floats'] and {'f': unit['floats'][0]})).hex()})
+        acc.samples.append({'kind': 'floats', 'value_hex': unit['floats'][0], 'real_encoding_hex': _sample_hex(U, values.build(unit['floats'] and {'f': unit['floats'][0]}))})
     elif kind == 'len':
         rng = prng.rng('c14-len', unit['seed'], unit['family'], unit['n'])
         full = unit['tier'] == 'thorough' and unit['family'] in ('str', 'str-mb', 'bin', 'ext')
